@@ -80,7 +80,7 @@ fn engine_shard(id: &str, tier: &str, seed: u64, replay: Option<&serde_json::Val
             }
         }
         if id == "C18" && replay.is_none() && out.found.is_empty() && shard.k == 8 % shard.n {
-            if let Some(f) = checks_e1::lock_held_part(&mut out.cov) {
+            if let Some(f) = checks_e1::lock_held_part(&mut out.cov, "C18") {
                 out.found.push(f);
             }
         }
